@@ -77,6 +77,7 @@ def _find_literal(start, base):
 def run(ctx):
     prog = ctx.prog
     ctx.decided("fiin header/record layout, symmetry and count divisor")
+    ctx.decided("SHA-1 constants, round-group dispatch, padding layout (0x80, < 56 threshold, length position), digest byte order (shared with C12)")
     ctx.decided("FileInfo::new records size, name and digest of the same file")
     ctx.decided("patch-list column agreement between to_string and from_string for both list types")
     ctx.decided("X-Patch-Length label agreement, label skipped before parsing, total derives from the entries' lengths")
@@ -89,6 +90,10 @@ def run(ctx):
         ctx.floor("W2", f"field comparisons decided for {t}", d, fl)
     k = w3(ctx, ["fiin::FileInfo"])
     ctx.floor("W3", "count divisors in fiin", k, 1)
+    # the recorded digests are produced by src/sha1.rs: constants, round dispatch, padding layout, digest byte order
+    from .c12 import sha1_rules
+
+    sha1_rules(ctx)
 
     # ---- SAMEFILE
     nb = prog.body("fiin::FileInfo::new")
